@@ -33,7 +33,14 @@ pub enum TOp {
     /// move shared timer `id` to thread `to`
     Send { id: u32, to: usize },
     /// observe_closure_duration(|| { advance(q); token })
-    Closure { q: u32, local: bool },
+    /// `nested`: what the closure itself does with the same histogram before it returns: 0 nothing,
+    /// 1 a nested observe_closure_duration, 2 start_timer + observe_duration, 3 start_timer + stop_and_discard
+    Closure {
+        q: u32,
+        local: bool,
+        #[serde(default)]
+        nested: u8,
+    },
     LocalFlush,
     Collect,
 }
@@ -93,7 +100,7 @@ fn gen_plan(seed: u64) -> TimerPlan {
                         TOp::Send { id, to }
                     }
                 }
-                78..=87 => TOp::Closure { q: r.below(500) as u32, local: r.chance(35) },
+                78..=87 => TOp::Closure { q: r.below(500) as u32, local: r.chance(35), nested: if r.chance(30) { 1 + r.below(3) as u8 } else { 0 } },
                 88..=92 => TOp::LocalFlush,
                 _ => TOp::Collect,
             };
@@ -216,10 +223,36 @@ fn execute(plan: &TimerPlan, mode: Mode) -> RunOut {
                         }
                         TRes::None
                     }
-                    TOp::Closure { q, local: l } => {
+                    TOp::Closure { q, local: l, nested } => {
                         let token = 0xC0FFEE00u64 + *q as u64;
                         let f = || {
                             advance_here(*q as u64);
+                            // re-entrancy: the closure uses the histogram it is being timed on
+                            match (*nested, *l) {
+                                (1, true) => local.observe_closure_duration(|| advance_here(1)),
+                                (1, false) => h.observe_closure_duration(|| advance_here(1)),
+                                (2, true) => {
+                                    let t = local.start_timer();
+                                    advance_here(2);
+                                    t.observe_duration();
+                                }
+                                (2, false) => {
+                                    let t = h.start_timer();
+                                    advance_here(2);
+                                    t.observe_duration();
+                                }
+                                (3, true) => {
+                                    let t = local.start_timer();
+                                    advance_here(2);
+                                    t.stop_and_discard();
+                                }
+                                (3, false) => {
+                                    let t = h.start_timer();
+                                    advance_here(2);
+                                    t.stop_and_discard();
+                                }
+                                _ => {}
+                            }
                             token
                         };
                         TRes::Token(if *l { local.observe_closure_duration(f) } else { h.observe_closure_duration(f) })
@@ -371,10 +404,18 @@ fn execute(plan: &TimerPlan, mode: Mode) -> RunOut {
                     out.violations.push(Violation::new("C18/closure", "C18/closure", format!("observe_closure_duration returned {:#x}, the closure returned {:#x}", tok, 0xC0FFEE00u64 + *q as u64)));
                 }
                 let rd = reads.get(id).cloned().unwrap_or_default();
-                if rd.len() != 2 {
-                    expected.push(f64::NAN);
+                let nested = if let TOp::Closure { nested, .. } = op { *nested } else { 0 };
+                if nested == 0 {
+                    expected.push(if rd.len() == 2 { secs(rd[0], rd[1]) } else { f64::NAN });
                 } else {
-                    expected.push(secs(rd[0], rd[1]));
+                    // clock reads: outer start, inner start, inner stop, outer stop
+                    let ok = rd.len() == 4;
+                    expected.push(if ok { secs(rd[0], rd[3]) } else { f64::NAN });
+                    if nested != 3 {
+                        expected.push(if ok { secs(rd[1], rd[2]) } else { f64::NAN });
+                    } else {
+                        n_discard += 1;
+                    }
                 }
             }
             _ => {}
@@ -433,7 +474,10 @@ fn execute(plan: &TimerPlan, mode: Mode) -> RunOut {
                 if iv.get(oid).map(|x| x.0 < ret).unwrap_or(false) {
                     upper += match rr {
                         Ok(TRes::Stopped(_, how, _)) if *how != How::StopAndDiscard => 1,
-                        Ok(TRes::Token(_)) => 1,
+                        Ok(TRes::Token(_)) => match &plan.threads[op_thread(*oid)][*oid as usize % 1000] {
+                            TOp::Closure { nested: 1 | 2, .. } => 2,
+                            _ => 1,
+                        },
                         Ok(TRes::Dropped(l)) => l.len() as u64,
                         _ => 0,
                     };
